@@ -551,6 +551,7 @@ def eval_direct(case, acc=None):
             compare("collective-from-to", r[0], r[1])
         # MultiIndex (element_id, cycle); element 20 carries another parameter set
         other = case.get("other")
+        w2 = None
         if other is not None and n >= 2:
             other = list(other)
             half = n // 2
@@ -572,6 +573,43 @@ def eval_direct(case, acc=None):
                 r = _guard("interface/collective-per-element-parameters/rows-interleaved", lambda: _accessor(d, f3i, R, pf), viol, mini(cyc=ucyc, ifaces=True)); ev()
                 if r is not None:
                     compare("collective-per-element-parameters/rows-interleaved", r[0], None, want3[perm], mask3[perm])
+        # sensitivities per (element, surface) in a frame whose rows are NOT grouped by element, on a collective that shares no
+        # index level with it: every (element, surface, cycle) row of the result is read by key
+        if other is not None and n >= 2 and w2 is not None:
+            keys = [(2, "rolled"), (1, "rolled"), (2, "polished"), (1, "polished")]
+
+            def halved(x):
+                # the same diagram with half the sensitivities (five-segment: R12, R23 kept)
+                return [x[0]] + [0.5 * v for v in x[1:3]] if x[0] == "goodman" else [x[0]] + [0.5 * v for v in x[1:6]] + list(x[6:])
+            sets = [list(other), list(d), halved(list(d)), halved(list(other))]          # four different parameter sets, in listing order
+            pf2 = pd.DataFrame([_params(x) for x in sets], index=pd.MultiIndex.from_tuples(keys, names=["element_id", "surface"]))
+            fc = pd.DataFrame({"range": 2.0 * ua, "mean": um}, index=pd.Index(range(n), name="cycle"))
+            wants = [_guard("function", lambda x=x: _function(x, list(ua), list(um), R), viol, mini(cyc=ucyc, ifaces=True)) for x in sets]; ev(4)
+            masks = [np.array([_exact(_refdiag(x), a, m, R) is not None for a, m in ucyc]) for x in sets]
+
+            def two_level():
+                acc_ = fc.meanstress_transform
+                res = acc_.fkm_goodman(pf2, R) if d[0] == "goodman" else acc_.five_segment(pf2, R)
+                out = res.to_pandas()
+                amp = np.asarray(res.amplitude, dtype=float)
+                names = list(out.index.names)
+                rows = [dict(zip(names, k)) for k in out.index]
+                return amp, rows
+            r2 = _guard("interface/collective-parameters-two-level-frame", two_level, viol, mini(cyc=ucyc, ifaces=True)); ev()
+            if r2 is not None and all(w is not None for w in wants):
+                amp, rows = r2
+                seen_rows = sorted((rw.get("element_id"), rw.get("surface"), rw.get("cycle")) for rw in rows)
+                if seen_rows != sorted((e, s_, c) for (e, s_) in keys for c in range(n)):
+                    viol.append(("C12/interface/collective-parameters-two-level-frame/rows", mini(cyc=ucyc, ifaces=True), {"rows": seen_rows[:12]}))
+                else:
+                    for g, rw in zip(amp, rows):
+                        k = keys.index((rw["element_id"], rw["surface"]))
+                        c = rw["cycle"]
+                        if masks[k][c] and not _isclose(g, wants[k][c]):
+                            viol.append(("C12/interface/collective-parameters-two-level-frame", mini(cyc=ucyc, ifaces=True),
+                                         {"row": [rw["element_id"], rw["surface"], c], "cycle": ucyc[c], "parameters_of_the_row": sets[k],
+                                          "this_interface": float(g), "plain_function_with_the_rows_own_parameters": float(wants[k][c])}))
+                            break
         # HaighDiagram.transform on the frame
         r = _guard("interface/HaighDiagram.transform", lambda: _haigh(d).transform(f1, R), viol, mini(cyc=ucyc, ifaces=True)); ev()
         if r is not None:
@@ -827,6 +865,19 @@ def eval_matrix(case, acc=None):
                 tout = float(res.xs(node, level="node").sum())
                 if tin != tout:
                     acc.count("matrix: per-node total differs although (or while) grand total judged (reported, not judged)")
+    if v is None and nodes is not None and occupied.any() and not occupied.all():
+        # sparse storage: every node keeps only the classes it occupies (the nodes then list different classes, the first
+        # listed node not all of them)
+        s2 = s[occupied]
+        res2 = _guard("matrix/sparse-storage", lambda: s2.meanstress_transform.fkm_goodman(pd.Series({"M": M[0], "M2": M[1]}), R).to_pandas(), viol, case)
+        if acc is not None:
+            acc.evaluations += 1
+        if res2 is not None:
+            v2 = _guard("matrix/sparse-storage/judge", lambda: _judge_matrix_result(res2, (2.0 * want)[occupied], allc[occupied],
+                                                                                  [n_ for n_, o in zip(node_of, occupied) if o]), viol, case)
+            if v2 is not None:
+                key = "C12/matrix/sparse-storage/%s" % v2[0]
+                viol.append((key, case, v2[1]))
     if v is not None:
         key = "C12/matrix/%s" % v[0] if v[0] == "cycles-not-conserved" else "C12/interface/matrix-accessor/%s" % v[0]
         viol.append((key, case, v[1]))
